@@ -56,8 +56,9 @@ Variable lat : latdata R.
 Variable recbase : gmat R.
 Variable Dz : Z.
 Variable grid : R -> Z.
+Variable dcv : dec -> R.
 Hypothesis lat_eps : (0 < l_epsilon lat)%R.
-Let E : env (T:=R) := Env (RC eps) lat recbase Dz grid.
+Let E : env (T:=R) := Env (RC eps) lat recbase Dz grid dcv.
 (* the lattice's fractional() undoes cartesian() : recbase is the inverse of base *)
 Hypothesis cart_frac : forall c, cartesian E (fractional E c) = c.
 
